@@ -108,6 +108,8 @@ struct scen {
         unsigned char vacc[2];
         unsigned char vcb[2];        /* variable callbacks present: bit0 write, bit1 read */
         unsigned char vrc[2];        /* their result: 0 ok, else error */
+        unsigned char jk[28];        /* junk for the scratch fields of an idle parser (junk-idle start) */
+        unsigned char jbuf[CAPB_MAX];
         SCEN_EXTRA
 };
 #define SCEN_DEFINED
@@ -154,6 +156,7 @@ static struct {
         struct cat_variable novar[1]; /* commands without variables point here with var_num = 0 */
         struct cat_io_interface io;
         int k;                       /* current service step */
+        int sched_r, sched_w;        /* runtime switches: honour S.sr / S.sw */
         unsigned in_pos;
         unsigned out_n;
         unsigned rc_n;
@@ -280,10 +283,8 @@ static int io_read(char *ch)
 {
         W.reads_attempted++;
         ON_READ_ATTEMPT();
-#if SYM_SCHED_R
-        if (!(W.k >= 0 && W.k < N && S.sr[W.k]))
+        if ((SYM_SCHED_R || W.sched_r) && !(W.k >= 0 && W.k < N && S.sr[W.k]))
                 return 0;
-#endif
         if (W.in_pos >= S.in_len)
                 return 0;
         *ch = (char)S.in[W.in_pos++];
@@ -295,10 +296,8 @@ static int io_write(char ch)
 {
         W.writes_attempted++;
         ON_WRITE_ATTEMPT((unsigned char)ch);
-#if SYM_SCHED_W
-        if (!(W.k >= 0 && W.k < N && S.sw[W.k]))
+        if ((SYM_SCHED_W || W.sched_w) && !(W.k >= 0 && W.k < N && S.sw[W.k]))
                 return 0;
-#endif
         if (W.out_n < OUTMAX)
                 G_out[W.out_n] = (uint8_t)ch;
         W.out_n++;
@@ -481,6 +480,42 @@ static void world_build(void)
         cat_init(&W.at, &W.desc, &W.io, NULL);
 }
 
+/* IDLE as reset_state leaves it: state, cr_flag, hold_state_flag, cmd, cmd_type are defined; every other field
+ * and the working buffer are scratch left over from any earlier line */
+static void world_junk_idle(void)
+{
+        unsigned i;
+        W.at.index = vf_u32(&S.jk[0]);
+        W.at.partial_cntr = vf_u32(&S.jk[4]);
+        W.at.length = vf_u32(&S.jk[8]);
+        W.at.position = vf_u32(&S.jk[12]);
+        W.at.write_size = vf_u32(&S.jk[16]);
+        W.at.current_char = (char)S.jk[20];
+        W.at.hold_exit_status = (int)(signed char)S.jk[21];
+        W.at.write_state = (int)S.jk[22];
+        W.at.write_state_after = (cat_state)(signed char)S.jk[23];
+        W.at.var = (S.jk[24] & 1) ? &W.var[S.jk[24] >> 7] : NULL;
+        W.at.write_buf = (S.jk[25] & 1) ? (const char *)G_buf : NULL;
+        for (i = 0; i < CAPB_MAX; i++)
+                G_buf[i] = S.jbuf[i];
+}
+
+/* explicit re-initialisation for a second run inside one scenario (twin runs) */
+static void world_clear_run(void)
+{
+        unsigned i;
+        W.k = 0; W.in_pos = 0; W.out_n = 0; W.rc_n = 0; W.hl_n = 0;
+        W.vw_n[0] = W.vw_n[1] = W.vr_n[0] = W.vr_n[1] = 0; W.vw_size[0] = W.vw_size[1] = 0;
+        W.u_state = 0; W.u_crlf_lead = W.u_crlf_trail = 0; W.u_len = 0; W.units = 0; W.malformed = 0;
+        W.last_unit_lead_crlf = W.last_unit_trail_crlf = 0; W.reads_attempted = W.writes_attempted = 0;
+        for (i = 0; i < NH; i++) { W.hl_cmd[i] = 0; W.hl_kind[i] = 0; }
+        for (i = 0; i < CAPB_MAX; i++) { G_buf[i] = 0; G_wdata[i] = 0; G_rdata[i] = 0; }
+        for (i = 0; i < OUTMAX; i++) G_out[i] = 0;
+        G_wsize = G_wargs = G_rsize = G_rmax = 0;
+        W.at.index = W.at.partial_cntr = W.at.length = W.at.position = W.at.write_size = 0;
+        W.at.var = NULL; W.at.write_buf = NULL; W.at.write_state = 0; W.at.write_state_after = CAT_STATE_IDLE; W.at.current_char = 0;
+}
+
 #ifndef __CPROVER__
 static const char vf_alpha[] = "ATat+#$@_%&09zZbB";
 static void world_sample(void)
@@ -507,6 +542,8 @@ static void world_sample(void)
         S.vacc[1] = (unsigned char)(rnd(3) ? 0 : rnd(3));
         S.vcb[0] = (unsigned char)rnd(4); S.vcb[1] = (unsigned char)rnd(4);
         S.vrc[0] = (unsigned char)(rnd(5) == 0); S.vrc[1] = (unsigned char)(rnd(5) == 0);
+        rnd_bytes(S.jk, sizeof(S.jk));
+        rnd_bytes(S.jbuf, sizeof(S.jbuf));
 }
 
 static unsigned char shape_sample(char cls, unsigned ci, unsigned ni)
